@@ -36,6 +36,10 @@ func fixURLHost(u *url.URL) {
 		return
 	}
 	i := strings.IndexRune(u.Path, '/')
+	if i < 0 {
+		// bare host without any path, like 't.me'
+		i = len(u.Path)
+	}
 	u.Host = u.Path[:i]
 	u.Path = u.Path[i:]
 }
